@@ -27,7 +27,7 @@ from vlib import ToolingError, REPO, VERIF
 META = {
     "level": "model_checking",
     "technique": "TLA+ lexical state machine of C-like text (CLexical.tla): TLC enumerates every lexically closed text up to a bound per alphabet profile and exports it with StripLines(text); dumbindent.FormatBytes is replayed on each for 3 options and compared with the exported expectation, differing answers and a seeded sample are judged by TLC (CLexical!Judge). TLA+ token/layout model of Wuffs source (WuffsLayout.tla): TLC-generated sources and the repository's .wuffs files go through Tokenize/Parse/Render and recorded token+comment streams are judged by TLC (WuffsLayout!Judge).",
-    "text": "Indenter: exhaustive over six alphabet profiles of C-like text (all 17 bytes of the alphabet to length 4/5; comment/raw-string, literal, directive and nesting alphabets to length 6-9) x {2 spaces, 4 spaces, tabs}: terminates, StripLines(out) = StripLines(in), FormatBytes(out) = out; plus seeded random texts to length 40. wuffsfmt: every operand shape next to every operator, every statement/declaration form and numeric spelling under 10 layout schemes, random multi-declaration files, and all .wuffs files of the repository: identical token+comment stream (numbers modulo underscores and case), output parses, Render(Render(s)) = Render(s).",
+    "text": "Indenter: exhaustive over seven alphabet profiles of C-like text (all 17 bytes of the alphabet to length 4/5; comment/raw-string, literal, directive and nesting alphabets to length 5-10) x {2 spaces, 4 spaces, tabs}: terminates, StripLines(out) = StripLines(in), FormatBytes(out) = out; plus seeded random texts to length 40. wuffsfmt: every operand shape next to every operator, every statement/declaration form and numeric spelling under 10 layout schemes, random multi-declaration files, and all .wuffs files of the repository: identical token+comment stream (numbers modulo underscores and case), output parses, Render(Render(s)) = Render(s).",
     "note": "Trusted: TLC, the transport (JSON, marker substitution), and for answers outside the TLC-judged sample the harness's byte comparison against the TLC-exported expectation (indenter) / its stream comparison (wuffsfmt), which is cross-checked against TLC on every run. Line splicing outside directives and comments that run out of a directive line are outside the modelled precondition. Leading blank lines are treated as white space (the indenter drops them).",
 }
 
@@ -133,9 +133,10 @@ def indent_drive(ctx, binp, acc, prints, label, sample, kmax, flagged_too=False)
     with open(path, "w") as f:
         for line in prints:
             if not flagged_too:
-                if line in acc.seen:
+                h = hash(line)      # 64-bit; a collision would only drop one text
+                if h in acc.seen:
                     continue
-                acc.seen.add(line)
+                acc.seen.add(h)
                 if '"k2":true' in line:
                     acc.flagged2_generated += 1
                 if '"k":true' in line:
@@ -499,7 +500,8 @@ def run(ctx):
         "the precondition 'all delimiters terminated' is CLexical!Closed: no backslash-newline splicing outside directives; cooked literals end on their line; a comment or literal opened on a directive line ends on that logical line; '#' after a comment on the same line is excluded",
         "blank lines at the start of the text count as white space (FormatBytes drops them on purpose), as do the trailing blanks of a Wuffs comment",
         "answers outside the TLC-judged rows are compared by the harness with the expectation exported by TLC (indenter) or by a stream comparison mirrored from WuffsLayout!SameStream (wuffsfmt); every run cross-checks those comparisons against TLC on all differing rows and a seeded sample",
-        "a non-result counts only after a second run with 4x budget and 4x memory cap, except for texts with the known construct, which are run once with a short budget and only ever reported under the known key",
+        "a non-result counts only after a second run with 4x budget and 4x memory cap, except for texts with the first known construct, which are run once with a short budget and only ever reported under the known key; while the committed witness of that finding still fails only a subset of the generated texts with the construct is driven (counts in coverage.indent)",
+        "a violation on a text that contains a known construct (CLexical!KnownConstruct / KnownConstruct2, evaluated by TLC) is reported under that finding's key; a violation on any other text is a new violation",
         "the harness is linked against the working tree named by VERIF_REPO (default /repo)",
     ])
 
